@@ -362,6 +362,27 @@ func k2() *sched.Scenario {
 						out = append(out, "c13:payload-emitted-twice:"+pl)
 					}
 				}
+				// "every peer its own channel number": all ChannelBind requests seen name one number for the peer
+				nums := map[string]map[uint16]bool{}
+				for _, m := range w.seen {
+					if m.Method != wire.ChannelBind || m.Class != wire.Request {
+						continue
+					}
+					n, _ := m.U32(wire.AttrChannelNumber)
+					pa, _ := m.XorAddr(wire.AttrXORPeerAddress)
+					if pa == nil {
+						continue
+					}
+					if nums[pa.String()] == nil {
+						nums[pa.String()] = map[uint16]bool{}
+					}
+					nums[pa.String()][uint16(n>>16)] = true //nolint:gosec
+				}
+				for p, set := range nums {
+					if len(set) > 1 {
+						out = append(out, fmt.Sprintf("c13:peer-bound-to-%d-channel-numbers:%s", len(set), p))
+					}
+				}
 
 				return out
 			}, w.teardown
@@ -523,6 +544,61 @@ func k6() *sched.Scenario {
 		}}
 }
 
-func TestC12Sched(t *testing.T) { run(t, "C12", k1(), k1b(), k6()) }
+// k7: the answer to the first transmission is as fast as the network allows:
+// the server replies the moment the request is out, so the client's read loop
+// may handle the response while the sender is still between its first write
+// and whatever it does next (registering, arming the timer, waiting). Later
+// transmissions are not answered. In every schedule the caller gets that first
+// response, after exactly one transmission.
+func k7() *sched.Scenario {
+	return &sched.Scenario{Name: "K7-response-as-fast-as-the-first-write", Bound: bound(), FreeBound: 3, Opt: opt,
+		Body: func(*vsched.Sched) (func() []string, func()) {
+			w := newCWorld(100 * time.Millisecond)
+			var nt notes
+			sent := 0
+			vsched.Go("driver", func() {
+				vsched.Mark()
+				vsched.Go("app", func() {
+					req := bindingReq()
+					res, err := w.cl.PerformTransaction(req, w.srvAddr, false)
+					switch {
+					case err != nil:
+						nt.set("app", "error:"+errKind(err))
+					case res.Msg == nil || res.Msg.TransactionID != req.TransactionID:
+						nt.set("app", "foreign-response")
+					default:
+						nt.set("app", "response")
+					}
+				})
+				vsched.Go("server", func() {
+					for {
+						d, ok := w.next("server")
+						if !ok {
+							continue
+						}
+						sent++
+						if m, err := wire.Parse(d.Data); err == nil && sent == 1 {
+							w.reply(wire.New(wire.Binding, wire.Success, m.TxID).XorAddr(wire.AttrXORMappedAddress, net.IPv4(10, 0, 0, 2), 4000).Bytes())
+						}
+					}
+				})
+				vsched.IdleSleep(10 * time.Second)
+			})
+
+			return func() []string {
+				var out []string
+				if a := nt.get("app"); a != "response" {
+					out = append(out, "c12:answered-first-transmission-but-transaction-ended-with:"+a)
+				}
+				if sent != 1 {
+					out = append(out, fmt.Sprintf("c12:request-transmitted-%d-times-although-the-first-was-answered", sent))
+				}
+
+				return out
+			}, func() { w.cl.Close(); _ = w.cs.Close() }
+		}}
+}
+
+func TestC12Sched(t *testing.T) { run(t, "C12", k1(), k1b(), k6(), k7()) }
 func TestC13Sched(t *testing.T) { run(t, "C13", k2(), k3(), k5()) }
-func TestC18Client(t *testing.T) { run(t, "C18", k1(), k1b(), k2(), k3(), k5(), k6()) }
+func TestC18Client(t *testing.T) { run(t, "C18", k1(), k1b(), k2(), k3(), k5(), k6(), k7()) }
